@@ -388,10 +388,15 @@ def ser_sv(fl, sig):
     return f"(sv {int(fl)} {ser_sig(sig)})"
 
 
-def build_sig(sig, fl=False):
+def build_sig(sig, fl=False, reuse=None):
+    """the amaranth signature for the abstract tree; with `reuse` (a `Reuse`) the members are not written
+    afresh but taken from a pool of Member objects shared with everything built with the same `reuse`"""
     from amaranth.lib import wiring
     members = {}
     for n, m in sig:
+        if reuse is not None:
+            members[n] = reuse.member(m)
+            continue
         flow = wiring.Out if m["f"] == "o" else wiring.In
         if m["t"] == "port":
             mem = flow(shape_obj(m["shape"]), init=init_obj(m["shape"], m["init"]))
@@ -402,6 +407,100 @@ def build_sig(sig, fl=False):
         members[n] = mem
     s = wiring.Signature(members)
     return s.flip() if fl else s
+
+
+class Reuse:
+    """Member objects are immutable descriptions and may be used any number of times.  A `Reuse` keeps one scalar
+    Member object per distinct abstract (flow, description) and hands out *that object* (or `.array(...)` taken
+    from it) wherever the abstract tree has such a member - in several places of one signature, in nested
+    signatures and in the signatures built later with the same `Reuse`.  Before `.array()` is taken the scalar
+    object has (most of the time) already been used: flipped, seen through a flipped signature, flattened,
+    connected, or used as a Component annotation.  What comes out must not depend on any of this: the expected
+    results are those of the abstract tree.  Everything is drawn from `random.Random(seed)`."""
+    PREUSE = ("flip", "flipped-members", "flipped-flatten", "connect", "component")
+
+    def __init__(self, seed):
+        self.seed = seed
+        self.rng = random.Random(seed)
+        self.pool = {}
+        self.notes = {}
+        self.errors = []
+
+    def note(self, what):
+        self.notes[what] = self.notes.get(what, 0) + 1
+
+    def take_notes(self):
+        n, self.notes = self.notes, {}
+        return n
+
+    def key(self, m):
+        if m["t"] == "port":
+            return ("port", m["f"], repr(sorted(m["shape"].items())), repr(m["init"]))
+        return ("iface", m["f"], m["df"], ser_sig(m["sig"]))
+
+    def scalar(self, m):
+        from amaranth.lib import wiring
+        k = self.key(m)
+        if k in self.pool:
+            self.note("scalar:pooled")
+            return self.pool[k]
+        flow, other = (wiring.Out, wiring.In) if m["f"] == "o" else (wiring.In, wiring.Out)
+        if m["t"] == "port":
+            desc, kw = shape_obj(m["shape"]), {"init": init_obj(m["shape"], m["init"])}
+        else:
+            desc, kw = build_sig(m["sig"], m["df"], reuse=self), {}
+        if self.rng.random() < .3:
+            mem = other(desc, **kw).flip()          # the member with the wanted flow, obtained by flipping
+            self.note("scalar:new-by-flip")
+        else:
+            mem = flow(desc, **kw)
+            self.note("scalar:new")
+        self.pool[k] = mem
+        return mem
+
+    def preuse(self, mem):
+        """use a Member object the way a design would, before it is used (again) elsewhere"""
+        from amaranth.hdl import Module
+        from amaranth.lib import wiring
+        how = self.rng.choice(self.PREUSE)
+        self.note("preuse:" + how)
+        try:
+            if how == "flip":
+                mem.flip()
+                return
+            if how == "component":
+                cls = type("Src", (wiring.Component,), {"__annotations__": {"p": mem, "q": wiring.Out(1)}})
+                a = cls()
+                b = a.signature.flip().create(path=("peer",))
+                wiring.connect(Module(), a, b)
+                return
+            s0 = wiring.Signature({"p": mem, "q": wiring.Out(1)})
+            f0 = s0.flip()
+            if how == "flipped-members":
+                f0.members["p"]
+            elif how == "flipped-flatten":
+                list(f0.flatten(f0.create()))
+            else:
+                wiring.connect(Module(), s0.create(path=("a",)), f0.create(path=("b",)))
+        except Exception as e:
+            self.errors.append(f"{how}:{errname(e)}:{str(e)[:100]}")
+
+    def member(self, m):
+        base = self.scalar(m)
+        dims = m["dims"]
+        if not dims:
+            self.note("use:scalar")
+            return base
+        if self.rng.random() < .8:
+            self.preuse(base)
+        if len(dims) >= 2 and self.rng.random() < .5:
+            inner = base.array(*dims[1:])
+            if self.rng.random() < .5:
+                self.preuse(inner)
+            self.note("use:array-chained")
+            return inner.array(dims[0])
+        self.note("use:array")
+        return base.array(*dims)
 
 
 # ------------------------------------------------------------------------------------------------
@@ -815,10 +914,27 @@ def observe_route(SS, route, sig):
     return ob
 
 
-def case_flatten(fl, sig):
+def impl_entries(SS):
+    """`SS.members.flatten()` (the recursive member listing `connect()` walks), every member with the dimensions
+    of each level on the way and, for ports, the flow / width / initial value the listing shows"""
+    from amaranth.hdl import Shape
+    dims = {}
+    out = []
+    for path, mem in SS.members.flatten():
+        path = tuple(path)
+        dims[path] = tuple(mem.dimensions)
+        segs = ".".join(path[i] + "".join(f"[{k}]" for k in dims[path[:i + 1]]) for i in range(len(path)))
+        if mem.is_port:
+            out.append(f"{segs}={'o' if mem.flow.name == 'Out' else 'i'}:{Shape.cast(mem.shape).width}:{mem._init_as_const.value}")
+        else:
+            out.append(f"{segs}=iface")
+    return ";".join(out) or "-"
+
+
+def case_flatten(fl, sig, reuse=None):
     rec = {"kind": "flatten", "req": f"(flatten {ser_sv(fl, sig)})", "fl": fl, "sig": sig}
     try:
-        S = build_sig(sig, fl)
+        S = build_sig(sig, fl, reuse=reuse)
     except Exception as e:
         rec["build_error"] = errname(e) + ":" + str(e)[:120]
         return rec
@@ -828,6 +944,10 @@ def case_flatten(fl, sig):
             rec[key] = impl_flatten(SS, SS.create())
         except Exception as e:
             rec[key] = "error:" + errname(e)
+        try:
+            rec[key + "_entries"] = impl_entries(SS)
+        except Exception as e:
+            rec[key + "_entries"] = "error:" + errname(e)
         rec["routes"][key] = {r: observe_route(SS, r, sig) for r in ("create",) + ROUTES}
     try:
         rec["flipflip"] = (S.flip().flip() is S) or (S.flip().flip() == S)
@@ -836,9 +956,9 @@ def case_flatten(fl, sig):
     return rec
 
 
-def case_create(fl, sig):
+def case_create(fl, sig, reuse=None):
     rec = {"kind": "create", "req": f"(create {ser_sv(fl, sig)})", "fl": fl, "sig": sig}
-    S = build_sig(sig, fl)
+    S = build_sig(sig, fl, reuse=reuse)
     obj = S.create()
     rec["obj"] = ser_real(obj, sig)
     rec["mirror"] = ser_obj(create_obj(fl, sig))
@@ -898,9 +1018,9 @@ def ser_args(args):
     return "(connect " + " ".join(out) + ")"
 
 
-def run_connect(args, order, rng_seed, simulate, obj_edit=None, routes=None):
+def run_connect(args, order, rng_seed, simulate, obj_edit=None, routes=None, reuse=None):
     """build the real objects (argument h by `routes[h]`, default `S.create()`), connect them in `order`;
-    returns observation dict"""
+    returns observation dict.  `reuse`: the signatures are built from that pool of Member objects"""
     from amaranth.hdl import Module, Const, Signal, Value, Shape
     from amaranth.lib import wiring
     from amaranth.sim import Simulator
@@ -909,7 +1029,7 @@ def run_connect(args, order, rng_seed, simulate, obj_edit=None, routes=None):
     slot = {}          # id(value) -> (handle, path)
     leaves = {}        # (handle, path) -> dict(kind, value object, w, init)
     for h, (fl, sig, consts) in enumerate(args):
-        S = build_sig(sig, fl)
+        S = build_sig(sig, fl, reuse=reuse)
         obj = route_obj(S, routes[h] if routes else "create", path=(f"h{h}",))
         for p, container, key, m in raw_leaves(obj, sig):
             w, sg, iv = shape_info(m["shape"], m["init"])
@@ -996,10 +1116,10 @@ def run_connect(args, order, rng_seed, simulate, obj_edit=None, routes=None):
     return res
 
 
-def case_connect(args, label, seed, simulate, routes=None):
+def case_connect(args, label, seed, simulate, routes=None, reuse=None):
     rec = {"kind": "connect", "req": ser_args(args), "label": label, "args": args, "routes": routes}
     try:
-        rec["impl"] = run_connect(args, list(range(len(args))), seed, simulate, routes=routes)
+        rec["impl"] = run_connect(args, list(range(len(args))), seed, simulate, routes=routes, reuse=reuse)
     except Exception as e:
         rec["impl"] = {"result": "error:build:" + errname(e), "msg": str(e)[:160]}
         return rec
@@ -1009,7 +1129,7 @@ def case_connect(args, label, seed, simulate, routes=None):
         order.reverse()
     rec["order"] = order
     try:
-        rec["perm"] = run_connect(args, order, seed, False, routes=routes)
+        rec["perm"] = run_connect(args, order, seed, False, routes=routes, reuse=reuse)
     except Exception as e:
         rec["perm"] = {"result": "error:build:" + errname(e)}
     return rec
@@ -1322,9 +1442,200 @@ def corruptions(rng, args):
 
 
 # ------------------------------------------------------------------------------------------------
+# tuples that are NOT one tree and its flipped twins: every argument has a signature of its own (own top-level
+# view, own In/Out and proxy flag at every sub-interface member), the arguments agree only where connect() needs
+# them to.  The effective direction of every leaf is chosen per argument: exactly one output ("one") or an input
+# on every argument ("in": nobody drives it, nothing is wired, all keep their initial value).
+
+def gen_hetero(rng):
+    """(args, sites): sites["in"] / sites["one"] = [(index path of the port member, below an array of
+    sub-interfaces?, nesting depth, driving argument or None)]"""
+    k = rng.choice([2, 2, 3, 3, 4])
+    budget = [16]
+    sites = {"in": [], "one": []}
+
+    def level(depth, fls, pre, below_arr):
+        membs = [[] for _ in range(k)]
+        for name in rng.sample(NAMES, rng.choice([1, 2, 2, 3, 4])):
+            if budget[0] <= 0:
+                break
+            idx = len(membs[0])
+            if depth > 1 and rng.random() < .45:
+                dims = gen_dims(rng, allow_zero=False) if rng.random() < .6 else []
+                fs = [rng.choice("oi") for _ in range(k)]
+                dfs = [rng.random() < .3 for _ in range(k)]
+                subs = level(depth - 1, [sub_flag(fls[h], fs[h], dfs[h]) for h in range(k)], pre + (idx,),
+                             below_arr or bool(dims))
+                for h in range(k):
+                    membs[h].append((name, {"t": "iface", "f": fs[h], "df": dfs[h], "sig": subs[h], "dims": list(dims)}))
+            else:
+                spec, raw = gen_shape(rng)
+                dims = gen_dims(rng, allow_zero=rng.random() < .3)
+                n = 1
+                for d_ in dims:
+                    n *= d_
+                budget[0] -= max(n, 1)
+                pat = rng.choice(["one", "one", "in", "in", "in"])
+                drv = rng.randrange(k) if pat == "one" else None
+                for h in range(k):
+                    seen = "o" if h == drv else "i"
+                    membs[h].append((name, {"t": "port", "f": eff(seen, fls[h]), "shape": spec, "init": raw,
+                                            "dims": list(dims)}))
+                sites[pat].append((pre + (idx,), below_arr, len(pre), drv))
+        return membs
+    fls = [rng.random() < .5 for _ in range(k)]
+    sigs = level(rng.choice([1, 2, 2, 3, 3]), fls, (), False)
+    if not sites["one"]:
+        # at least one real Out -> In connection (otherwise "only input to input connections" is the answer anyway)
+        drv = rng.randrange(k)
+        for h in range(k):
+            sigs[h].append(("q_", {"t": "port", "f": eff("o" if h == drv else "i", fls[h]), "shape": {"k": "u", "w": 8},
+                                   "init": None, "dims": []}))
+        sites["one"].append(((len(sigs[0]) - 1,), False, 0, drv))
+    return [(fls[h], sigs[h], {}) for h in range(k)], sites
+
+
+def m_wider(m):
+    w = shape_info(m["shape"], m["init"])[0]
+    if m["shape"]["k"] in ("u", "s", "int"):
+        return {**m, "shape": {**m["shape"], "w": w + 1}}
+    return {**m, "shape": {"k": "u", "w": w + 1}, "init": None}
+
+
+def m_reinit(m):
+    w, sg, iv = shape_info(m["shape"], m["init"])
+    if w == 0:
+        return m
+    lo, hi = (-(1 << (w - 1)), (1 << (w - 1)) - 1) if sg else (0, (1 << w) - 1)
+    if sg and iv > hi:
+        iv -= 1 << w
+    return {**m, "shape": {"k": "s" if sg else "u", "w": w}, "init": iv + 1 if iv + 1 <= hi else lo}
+
+
+def m_resign(m):
+    w, sg, iv = shape_info(m["shape"], m["init"])
+    if w == 0 or iv != 0:
+        return m
+    return {**m, "shape": {"k": "u" if sg else "s", "w": w}, "init": None}
+
+
+def hetero_variants(rng, args, sites):
+    """list of (label, args, site description, simulate).  The single-point changes are made in ONE argument,
+    on a leaf nobody drives ("inonly-*") and - as controls - on a leaf with one output ("oneout-*")."""
+    k = len(args)
+    out = []
+
+    def changed(v, path, fn):
+        a = list(args)
+        fl, sig, c = a[v]
+        a[v] = (fl, edit_member(sig, path, fn), dict(c))
+        return a
+
+    def where(site, v):
+        path, below, depth, drv = site
+        return {"depth": depth, "below_iface_array": below, "n_args": k,
+                "changed_arg": "first" if v == 0 else "last" if v == k - 1 else "middle"}
+    if sites["in"]:
+        for label, fn, sim in (("inonly-width", m_wider, False), ("inonly-init", m_reinit, False),
+                               ("inonly-signedness", m_resign, True),
+                               ("inonly-dims", lambda m: {**m, "dims": m["dims"] + [2]}, True)):
+            site = rng.choice(sites["in"]); v = rng.randrange(k)
+            out.append((label, changed(v, site[0], fn), where(site, v), sim))
+        # one argument now drives the leaf: a connection to every other argument appears
+        site = rng.choice(sites["in"]); v = rng.randrange(k)
+        out.append(("inonly-gets-output", changed(v, site[0], lambda m: {**m, "f": eff(m["f"], True)}), where(site, v), True))
+    for label, fn in (("oneout-width", m_wider), ("oneout-init", m_reinit)):
+        site = rng.choice(sites["one"]); v = rng.randrange(k)
+        out.append((label, changed(v, site[0], fn), where(site, v), False))
+    # a second output on a driven leaf (one of the reading arguments), and the driver turned into a reader
+    site = rng.choice(sites["one"])
+    v = rng.choice([h for h in range(k) if h != site[3]])
+    out.append(("oneout-second-output", changed(v, site[0], lambda m: {**m, "f": eff(m["f"], True)}), where(site, v), False))
+    site = rng.choice(sites["one"])
+    out.append(("oneout-loses-output", changed(site[3], site[0], lambda m: {**m, "f": eff(m["f"], True)}),
+                where(site, site[3]), True))
+    return out
+
+
+# ------------------------------------------------------------------------------------------------
+# signatures built from reused Member objects (see `Reuse`): a few abstract member templates, used scalar first
+# and with array dimensions later, in a sequence of signatures built over one pool
+
+REUSE_DIMS = [[2], [3], [1], [2, 2], [2, 3], [3, 1], [0], [4]]
+
+
+def gen_reuse_scenario(rng):
+    """list of (fl, sig): trees over shared templates.  The first uses them mostly as scalars, the later ones
+    mostly with dimensions"""
+    ports = []
+    for _ in range(rng.randint(1, 3)):
+        spec, raw = gen_shape(rng)
+        ports.append({"t": "port", "f": rng.choice("oi"), "shape": spec, "init": raw})
+
+    def small_sig(depth):
+        members = []
+        for name in rng.sample(NAMES, rng.randint(1, 3)):
+            if depth > 1 and rng.random() < .3:
+                members.append((name, {"t": "iface", "f": rng.choice("oi"), "df": rng.random() < .3,
+                                       "sig": small_sig(depth - 1), "dims": rng.choice([[], [], [2]])}))
+            else:
+                members.append((name, {**rng.choice(ports), "dims": rng.choice([[], [], [], [2], [3]])}))
+        return members
+    ifaces = [{"t": "iface", "f": rng.choice("oi"), "df": rng.random() < .3, "sig": small_sig(2)}
+              for _ in range(rng.randint(0, 2))]
+    trees = []
+    for step in range(rng.choice([2, 2, 3])):
+        members = []
+        for name in rng.sample(NAMES, rng.randint(1, 4)):
+            tpl = rng.choice(ports + ports + ifaces)
+            scalar = rng.random() < (.7 if step == 0 else .2)
+            members.append((name, {**tpl, "dims": [] if scalar else list(rng.choice(REUSE_DIMS))}))
+        trees.append((rng.random() < .4, members))
+    return trees
+
+
+def reuse_cases(rng):
+    """all observations of one scenario; every record carries what is needed to rebuild the pool (`reuse`)"""
+    seed = rng.randrange(1 << 30)
+    R = Reuse(seed)
+    trees = gen_reuse_scenario(rng)
+    recs = []
+    for step, (fl, sig) in enumerate(trees):
+        tag = {"seed": seed, "step": step, "trees": [ser_sv(f, s) for f, s in trees[:step]]}
+        new = []
+        new.append(case_flatten(fl, sig, reuse=R))
+        if "build_error" not in new[-1]:
+            try:
+                new.append(case_create(fl, sig, reuse=R))
+            except Exception as e:
+                new.append({"kind": "create", "req": f"(create {ser_sv(fl, sig)})", "fl": fl, "sig": sig,
+                            "crash": errname(e) + ":" + str(e)[:100]})
+            k = rng.choice([2, 2, 3])
+            if k == 2:
+                args = [(fl, sig, {}), (not fl, sig, {})]
+            else:
+                # three arguments: a tree whose leaves are all outputs as seen, and two flipped twins
+                def outs(sg, f):
+                    return [(n, ({**m, "f": eff("o", f)} if m["t"] == "port" else
+                                 {**m, "sig": outs(m["sig"], sub_flag(f, m["f"], m["df"]))})) for n, m in sg]
+                so = outs(sig, fl)
+                args = [(fl, so, {}), (not fl, so, {}), (not fl, so, {})]
+            new.append(case_connect(args, "reuse-base", rng.randrange(1 << 30), True, reuse=R))
+            if rng.random() < .5:
+                new.append(case_connect(args, "reuse-base", rng.randrange(1 << 30), True,
+                                        routes=[rng.choice(ROUTES) for _ in args], reuse=R))
+        notes = R.take_notes()
+        errors, R.errors = R.errors, []
+        for i, r in enumerate(new):
+            r["reuse"] = {**tag, "notes": notes if i == 0 else {}, "preuse_errors": errors if i == 0 else []}
+        recs.extend(new)
+    return recs
+
+
+# ------------------------------------------------------------------------------------------------
 # worker
 
-def work(seed, n_trees, n_tuples, n_meta, quick):
+def work(seed, n_trees, n_tuples, n_meta, quick, n_hetero=0, n_reuse=0):
     import warnings
     warnings.filterwarnings("ignore")
     rng = random.Random(seed)
@@ -1374,6 +1685,18 @@ def work(seed, n_trees, n_tuples, n_meta, quick):
     for i in range(n_meta):
         sig = gen_sig(rng, rng.choice([1, 2, 3, 4]), False, signed_bias=(i % 2 == 0))
         recs.append(case_meta(sig, i % 4 == 0, fl=rng.random() < .4))
+    # (new streams come last, so that the cases above are what they were for a given seed)
+    for _ in range(n_hetero):
+        args, sites = gen_hetero(rng)
+        info = {"n_in_only": len(sites["in"]), "n_one_output": len(sites["one"])}
+        recs.append({**case_connect(args, "hetero-base", rng.randrange(1 << 30), True), "hetero": info})
+        if rng.random() < .4:
+            recs.append({**case_connect(args, "hetero-base", rng.randrange(1 << 30), True,
+                                        routes=[rng.choice(("create",) + ROUTES) for _ in args]), "hetero": info})
+        for label, a, where, sim in hetero_variants(rng, args, sites):
+            recs.append({**case_connect(a, "hetero-" + label, rng.randrange(1 << 30), sim), "hetero": {**info, **where}})
+    for _ in range(n_reuse):
+        recs.extend(reuse_cases(rng))
     return recs
 
 
@@ -1402,7 +1725,8 @@ def run(chk):
     quick = chk.tier == "quick"
     workers = min(16, os.cpu_count() or 4)
     n_jobs = workers * (1 if quick else 12)
-    per = {"trees": 14 if quick else 40, "tuples": 9 if quick else 30, "meta": 6 if quick else 8}
+    per = {"trees": 14 if quick else 40, "tuples": 9 if quick else 30, "meta": 6 if quick else 8,
+           "hetero": 4 if quick else 16, "reuse": 3 if quick else 12}
     seeds = [chk.rng.randrange(1 << 30) for _ in range(n_jobs)]
     recs = []
     # fixed witnesses first: F10 (p19), F13, dims boundary (p16)
@@ -1419,9 +1743,32 @@ def run(chk):
     dA = [("x", {"t": "port", "f": "o", "shape": {"k": "u", "w": 1}, "init": None, "dims": [2]})]
     dB = [("x", {"t": "port", "f": "i", "shape": {"k": "u", "w": 1}, "init": None, "dims": [3]})]
     recs.append({**case_connect([(False, dA, {}), (False, dB, {})], "witness-dims", 1, False), "witness": "dims"})
+    # an input-only leaf (nobody drives `mode`) whose initial value / width differs between the arguments, beside a
+    # properly connected leaf; two and three arguments
+    def strap(f_data, w, init):
+        return [("data", {"t": "port", "f": f_data, "shape": {"k": "u", "w": 8}, "init": None, "dims": []}),
+                ("mode", {"t": "port", "f": "i", "shape": {"k": "u", "w": w}, "init": init, "dims": []})]
+    for lbl, a in (("witness-inonly-init", [(False, strap("o", 4, 3), {}), (False, strap("i", 4, 5), {})]),
+                   ("witness-inonly-width", [(False, strap("o", 4, None), {}), (False, strap("i", 5, None), {})]),
+                   ("witness-inonly-init", [(False, strap("o", 3, 1), {}), (False, strap("i", 3, 1), {}),
+                                            (False, strap("i", 3, 6), {})]),
+                   ("witness-inonly-same", [(False, strap("o", 4, 3), {}), (False, strap("i", 4, 3), {})])):
+        recs.append({**case_connect(a, lbl, 1, True), "witness": lbl[8:] + f"/{len(a)}",
+                     "hetero": {"n_in_only": 1, "n_one_output": 1, "depth": 0, "below_iface_array": False,
+                                "n_args": len(a), "changed_arg": "last"}})
+    # one Member object used as a scalar in a signature that is flipped and connected, then `.array(4)` of it
+    wR = Reuse(1)
+    word = {"t": "port", "f": "o", "shape": {"k": "u", "w": 8}, "init": 3}
+    ack = {"t": "port", "f": "i", "shape": {"k": "u", "w": 1}, "init": None, "dims": []}
+    for step, wsig in enumerate(([("d", {**word, "dims": []}), ("ack", ack)], [("d", {**word, "dims": [4]}), ("ack", ack)])):
+        tag = {"seed": 1, "step": step, "trees": [], "notes": {}, "preuse_errors": []}
+        recs.append({**case_flatten(False, wsig, reuse=wR), "witness": f"reuse/{step}", "reuse": tag})
+        recs.append({**case_connect([(False, wsig, {}), (True, wsig, {})], "witness-reuse", 1, True, reuse=wR),
+                     "witness": f"reuse-connect/{step}", "reuse": tag})
     recs = [r for r in recs if r is not None]
     with concurrent.futures.ProcessPoolExecutor(max_workers=workers) as ex:
-        futs = [ex.submit(work, s, per["trees"], per["tuples"], per["meta"], quick) for s in seeds]
+        futs = [ex.submit(work, s, per["trees"], per["tuples"], per["meta"], quick, per["hetero"], per["reuse"])
+                for s in seeds]
         for f in futs:
             recs.extend(f.result())
     resps = chk.driver.ask([r["req"] for r in recs])
@@ -1452,6 +1799,27 @@ def run(chk):
         d = common.kv(resp)
         if resp.startswith("error"):
             raise common.Infra(f"driver rejected a request: {resp}: {rec['req'][:300]}")
+        if rec.get("reuse") is not None:
+            # built from reused Member objects; judged like every other case (object identity must not matter)
+            ru = rec["reuse"]
+            chk.hist("reuse_case", f"{kind}/step{ru['step']}" + (f"/{rec['label']}" if kind == "connect" else ""))
+            for k_, n_ in ru["notes"].items():
+                chk.hist("reuse_member", k_, n_)
+            for err in ru["preuse_errors"]:
+                report("reuse-preuse", f"a signature made of a reused Member object (and a fresh Out(1)) could not be flipped / "
+                       f"flattened / connected with its flipped twin: {err}", rec, resp, set(), True)
+            if kind == "flatten":
+                nd = sum(1 for _n, m_ in rec["sig"] if m_["dims"])
+                chk.hist("reuse_tree_members_with_dims", min(nd, 3))
+        if rec.get("hetero") is not None:
+            ht = rec["hetero"]
+            chk.hist("hetero_label", rec["label"] + ("+routes" if rec.get("routes") else ""))
+            chk.hist("hetero_leaf_patterns", f"in-only:{min(ht['n_in_only'], 3)}/one-output:{min(ht['n_one_output'], 3)}")
+            if "depth" in ht and rec["label"].startswith(("hetero-inonly", "witness-inonly")):
+                chk.hist("hetero_inonly_site", f"args:{ht['n_args']}/depth:{ht['depth']}/"
+                         f"{'below-iface-array' if ht['below_iface_array'] else 'no-iface-array-above'}/changed:{ht['changed_arg']}")
+                chk.hist("hetero_inonly_outcome", f"{rec['label']}: impl {rec['impl']['result']} / spec "
+                         f"{'ok' if d['spec'].startswith('ok') else 'refused'}")
         if kind == "flatten":
             sig, fl = rec["sig"], rec["fl"]
             chk.distinct(("flatten", rec["req"]), nontrivial=bool(sig))
@@ -1470,6 +1838,11 @@ def run(chk):
                            f"is {rec[key][:80]!r}, the leaves are {d[skey][:80]!r}", rec, resp, classes, True)
                 elif rec[key] != d[mkey]:
                     report("flatten", "flatten agrees with the spec but not with the model", rec, resp, set(), False)
+            # the recursive member listing (what connect() walks) of the signature and of its flip: model only
+            for key, ekey in (("flat_entries", "entries"), ("flip_entries", "flipentries")):
+                if rec[key] != d[ekey]:
+                    report("entries", f"members.flatten() of the {'flipped ' if key == 'flip_entries' else ''}signature lists "
+                           f"{rec[key][:100]!r}, the model {d[ekey][:100]!r}", rec, resp, set(), False)
             if rec["flipflip"] is not True:
                 report("flipflip", f"sig.flip().flip() is not sig: {rec['flipflip']}", rec, resp, set(), True)
             for m_ in port_members(sig):
@@ -1707,7 +2080,9 @@ def run(chk):
         chk.extra["boundary_init_out_of_range"] = "error:" + errname(e)
     chk.extra["cases_by_kind"] = stats
     chk.extra["simulated_connects"] = n_sim
-    chk.extra["exhaustive"] = {"witnesses": "F10 (p19), F13 (repro c14_connect_array_of_interfaces), dims boundary (p16) run on every invocation",
+    chk.extra["exhaustive"] = {"witnesses": "F10 (p19), F13 (repro c14_connect_array_of_interfaces), dims boundary (p16), input-only leaf with "
+                                            "differing init / width (2 and 3 arguments) and its matching control, Member object reused "
+                                            "scalar-then-array run on every invocation",
                                "corruption kinds": "every kind listed under distribution.connect_label / obj_corruption at one random site per tuple"}
     chk.cov["rule"] = ("random signature trees (depth<=4, <=2 dims incl. 0, 12 names, shapes: unsigned/signed/int/range/StructLayout/"
                        "UnionLayout/ArrayLayout/Enum(un/signed)/Struct and Union classes with field defaults/custom ShapeCastable with "
@@ -1717,7 +2092,17 @@ def run(chk):
                        "is_compliant; structure of PureInterface(S)/Component(S) against the mirror of members.create(); "
                        "per tuple (2-4 args = tree + flipped twins, constants): connect + every single-point corruption kind, "
                        "each also in a permuted order, simulation of accepted ones; the base tuple again (and 30% of the corrupted ones) "
-                       "with the arguments made by those other routes; component metadata on plain and flipped signatures; "
+                       "with the arguments made by those other routes; "
+                       "heterogeneous tuples (2-4 args, NOT flipped twins: every argument has its own top-level view and its own In/Out "
+                       "+ proxy flag at each sub-interface member; per leaf either exactly one argument sees an output or all see an "
+                       "input) + single-point changes in one argument on an input-only leaf (width, init, signedness, dims, becomes "
+                       "an output) and on a driven leaf (width, init, second output, loses its output), nested and below arrays of "
+                       "sub-interfaces; signatures built from REUSED Member objects (pool of scalar Member objects per scenario, used "
+                       "scalar first, flipped / seen through a flipped signature / flattened / connected / used as a Component "
+                       "annotation, then .array(n) / .array(n, m) / .array(m).array(n) taken from the same object) in sequences of "
+                       "2-3 signatures: flatten of both views by all routes, members.flatten() listing, create+is_compliant, connect "
+                       "with flipped twins + simulation, all judged against the abstract tree; "
+                       "component metadata on plain and flipped signatures; "
                        "plus object-side corruptions (a leaf signal of one "
                        "created interface replaced by one with another init / width, at a random leaf and at view-held "
                        "(Struct/Union/ArrayLayout/Enum) leaves): is_compliant False and ConnectionError in both orders; "
